@@ -33,7 +33,12 @@ func (x *runner) seqCase(id string, w, h int, prefix, ops []string) {
 
 func (x *runner) flush() {
 	for i, res := range emuh.RunCases(x.jobs, 12) {
-		x.r.Case(x.jobs[i].ID)
+		if j := x.jobs[i]; len(j.Prefix) > 0 {
+			// round 5: the silent prefix travels in the case id, so the replay of a failure is the whole history
+			x.r.Case(j.ID + " after: " + fmt.Sprintf("new %d %d", j.W, j.H) + " | " + strings.Join(j.Prefix, " | "))
+		} else {
+			x.r.Case(j.ID)
+		}
 		for _, l := range res.Lines {
 			x.r.Emit(l[0], l[1])
 		}
@@ -153,9 +158,19 @@ func run(r *hx.Run) error {
 	if r.Replay != "" {
 		t := &emuh.Term{}
 		defer t.Close()
+		last := ""
 		return hx.ReplayOps(r, func(op []string) (string, bool) {
 			if len(op) > 0 && strings.HasPrefix(op[0], "#case") {
+				// `#case <id> after: new W H | op | op`: run the silent prefix again
+				if _, hist, ok := strings.Cut(strings.Join(op, " "), " after: "); ok {
+					for _, p := range strings.Split(hist, " | ") {
+						last, _ = t.Apply(strings.TrimSpace(p))
+					}
+				}
 				return "-", true
+			}
+			if len(op) == 1 && op[0] == "adopt" {
+				return last, true
 			}
 			return t.Apply(strings.Join(op, " "))
 		})
